@@ -228,11 +228,23 @@ func bfSingleSetup(s *rt.Sim, tier string) func() {
 		peer.keepAlive(conn.Muxer(), true)
 		want := blocks[pick("op", len(blocks))]
 		shape := oneOf("op", "matching", "no-blocks", "empty-batch", "other-block", "several-blocks", "matching")
+		// forks and slot battles (own stream of draws): the block the server holds for that slot
+		// is not the one asked for
+		reqPoint := want.Point
+		flipped := false
+		otherKind := rt.Choose("op.x", 4)
+		if otherKind == 3 {
+			h := append([]byte(nil), want.Hash...)
+			h[rt.Choose("op.x", len(h))] ^= 1 << uint(rt.Choose("op.x", 8))
+			reqPoint = pcommon.NewPoint(want.Slot, h)
+			flipped = true
+			rt.Hit("bfsingle.same-slot-other-hash-requested")
+		}
 		var got ledger.Block
 		var gErr error
 		ret := false
 		go func() {
-			got, gErr = conn.BlockFetch().Client.GetBlock(want.Point)
+			got, gErr = conn.BlockFetch().Client.GetBlock(reqPoint)
 			ret = true
 			rt.Log("GetBlock returned err=%v", gErr)
 		}()
@@ -242,6 +254,16 @@ func bfSingleSetup(s *rt.Sim, tier string) func() {
 		}
 		send := func(b []byte) { _ = peer.sendMsg(blockfetch.ProtocolId, true, b) }
 		other := blocks[(pick("op", len(blocks)-1)+1+indexOfBlock(blocks, want))%len(blocks)]
+		if otherKind == 2 {
+			// another block of the same slot: the same real block signed with another protocol version
+			for _, v := range protoVariantBlocks() {
+				if v.Slot == want.Slot && v.Type == want.Type && !bytes.Equal(v.Hash, want.Hash) {
+					other = v
+					rt.Hit("bfsingle.same-slot-other-block-served")
+					break
+				}
+			}
+		}
 		switch shape {
 		case "matching":
 			send(sampleBytes("blockfetch", 2, 0, 0))
@@ -276,8 +298,11 @@ func bfSingleSetup(s *rt.Sim, tier string) func() {
 			rt.Violate("C23/getblock-hangs/"+shape, "%s: the call had not returned 10 simulated minutes after the batch ended (connection still up)", desc)
 			return
 		}
+		if flipped {
+			desc += " (requested: the block's slot with a hash that differs from the block's in one bit)"
+		}
 		if gErr == nil {
-			if got == nil || !bytes.Equal(got.Hash().Bytes(), want.Hash) {
+			if got == nil || !bytes.Equal(got.Hash().Bytes(), reqPoint.Hash) {
 				rt.Violate("C23/wrong-block-returned/"+shape, "%s: returned a block whose hash differs from the requested point's hash", desc)
 				return
 			}
@@ -285,7 +310,7 @@ func bfSingleSetup(s *rt.Sim, tier string) func() {
 				rt.Violate("C23/succeeds-on-bad-batch/"+shape, "%s: the call succeeded", desc)
 				return
 			}
-		} else if shape == "matching" {
+		} else if shape == "matching" && !flipped {
 			rt.Violate("C23/matching-block-rejected", "%s: %v", desc, gErr)
 			return
 		}
